@@ -135,6 +135,9 @@ impl LockState {
     pub const fn new() -> Self { LockState { writer: 0, readers: [0; NTHREAD], class: CL_NONE } }
 }
 
+/// lock word in its own small heap cell (small => written with a typed store => stays constant-propagated)
+pub fn new_lock_word() -> *mut LockState { Box::into_raw(Box::new(LockState::new())) }
+
 #[inline(always)]
 fn note_acquire(class: u8) {
     unsafe {
